@@ -5,77 +5,75 @@ What `encode_data` does to the positions, the last-block latch and its return va
 namespace BV.Stream
 open BV.Bits
 
-/-- the parts of `encodeData` after its two `return false`, as one equation -/
-theorem encodeData_ok_cases {o : Oracle} {s s' : St} {site : Nat} {il ff res : Bool} {req : Req}
-    (h : encodeData o s site il ff = .ok (s', res, req)) :
-    (s.isLastBlockEmitted = true ∧ res = false ∧ s' = encFail s (o s.nEnc (reqOf s site il ff)) false) ∨
-    (s.isLastBlockEmitted = false ∧ s.unprocessed > s.blockSize ∧ res = false ∧ s' = encFail s (o s.nEnc (reqOf s site il ff)) il) ∨
-    (s.isLastBlockEmitted = false ∧ ¬ s.unprocessed > s.blockSize ∧
-      ∃ s2 w hdr,
-        encPrelude (encMagic (growStorage (encStart s il) (wantStorage s)) (bitsOf s.lastBytesBits s.lastBytes)).1
-            (encMagic (growStorage (encStart s il) (wantStorage s)) (bitsOf s.lastBytesBits s.lastBytes)).2.1
-            (encMagic (growStorage (encStart s il) (wantStorage s)) (bitsOf s.lastBytesBits s.lastBytes)).2.2
-            (s.unprocessed % two32) = .ok (s2, w, hdr) ∧
-        encPayload s2 (o s.nEnc (reqOf s site il ff)) (bitsOf s.lastBytesBits s.lastBytes) w hdr il ff = .ok (s', res)) := by
-  unfold encodeData at h
-  split at h
-  · rename_i h1
-    simp only [Out.ok.injEq, Prod.mk.injEq] at h; obtain ⟨rfl, rfl, rfl⟩ := h
-    exact Or.inl ⟨h1, rfl, rfl⟩
-  · rename_i h1
-    have h1' : s.isLastBlockEmitted = false := by simpa using h1
-    split at h
-    · rename_i h2
-      simp only [Out.ok.injEq, Prod.mk.injEq] at h; obtain ⟨rfl, rfl, rfl⟩ := h
-      exact Or.inr (Or.inl ⟨h1', h2, rfl, rfl⟩)
-    · rename_i h2
-      split at h
-      · simp at h
-      · split at h
-        · simp at h
-        · simp at h
-        · rename_i s2 w hdr hpre
-          split at h
-          · simp at h
-          · simp at h
-          · rename_i s3 r3 hpay
-            simp only [Out.ok.injEq, Prod.mk.injEq] at h
-            obtain ⟨rfl, rfl, rfl⟩ := h
-            exact Or.inr (Or.inr ⟨h1', h2, s2, w, hdr, hpre, hpay⟩)
-
-theorem encFail_fields (s : St) (a : Ans) (l : Bool) :
-    (encFail s a l).frame = s.frame ∧ (encFail s a l).lastFlushPos = s.lastFlushPos
-    ∧ (encFail s a l).lastProcessedPos = s.lastProcessedPos ∧ (encFail s a l).pending = s.pending
-    ∧ (encFail s a l).nextOut = s.nextOut ∧ (encFail s a l).lastBytes = s.lastBytes
-    ∧ (encFail s a l).lastBytesBits = s.lastBytesBits ∧ (encFail s a l).storageSize = s.storageSize
-    ∧ (encFail s a l).isLastBlockEmitted = (s.isLastBlockEmitted || l) ∧ (encFail s a l).totalOut = s.totalOut
-    ∧ (encFail s a l).isFirstMb = s.isFirstMb := by
-  simp [encFail, St.frame]
-
 /-- `encode_data` succeeds exactly when the last block has not been emitted and at most one
 input block is pending -/
 theorem encodeData_res {o : Oracle} {s s' : St} {site : Nat} {il ff res : Bool} {req : Req}
     (h : encodeData o s site il ff = .ok (s', res, req)) :
     (res = true ↔ (s.isLastBlockEmitted = false ∧ ¬ s.unprocessed > s.blockSize)) := by
-  rcases encodeData_ok_cases h with ⟨h1, rfl, _⟩ | ⟨h1, h2, rfl, _⟩ | ⟨h1, h2, s2, w, hdr, _, hpay⟩
+  obtain ⟨_, hc⟩ := encodeData_ok_cases h
+  rcases hc with ⟨h1, rfl, _⟩ | ⟨h1, h2, rfl, _⟩ | ⟨h1, h2, hrest⟩
   · simp [h1]
-  · simp [h1, h2]
-  · have := (encPayload_frame hpay).2.1
+  · simp [h2]
+  · have := (encRest_frame hrest).2.1
     simp [this, h1, h2]
 
 /-- the last-block latch after a successful `encode_data` -/
 theorem encodeData_latch {o : Oracle} {s s' : St} {site : Nat} {il ff : Bool} {req : Req}
     (h : encodeData o s site il ff = .ok (s', true, req)) :
     s'.isLastBlockEmitted = il := by
-  rcases encodeData_ok_cases h with ⟨_, h2, _⟩ | ⟨_, _, h2, _⟩ | ⟨h1, _, s2, w, hdr, hpre, hpay⟩
+  obtain ⟨_, hc⟩ := encodeData_ok_cases h
+  rcases hc with ⟨_, h2, _⟩ | ⟨_, _, h2, _⟩ | ⟨h1, _, hrest⟩
   · simp at h2
   · simp at h2
-  · have q := (encPayload_frame hpay).2.2.1
-    have p := (encPrelude_frame hpre).2.1
-    have m := (encMagic_frame (growStorage (encStart s il) (wantStorage s)) (bitsOf s.lastBytesBits s.lastBytes)).2.2.2.1
-    have g := (growStorage_frame (encStart s il) (wantStorage s)).2.2.2.1
-    rw [q, p, m, g]
-    simp [encStart, h1]
+  · have r := (encRest_frame hrest).2.2.1
+    have m := (encMagic_frame (encEntry s il) s.carry).2.2.2.1
+    have e := (encEntry_fields s il).2.2.2.1
+    rw [r, m, e, h1]; simp
+
+/-- a failed `encode_data` leaves everything but the latch, the counter and the ghost flags -/
+theorem encodeData_fail {o : Oracle} {s s' : St} {site : Nat} {il ff : Bool} {req : Req}
+    (h : encodeData o s site il ff = .ok (s', false, req)) :
+    ∃ a l, s' = encFail s a l := by
+  obtain ⟨_, hc⟩ := encodeData_ok_cases h
+  rcases hc with ⟨_, _, h3⟩ | ⟨_, _, _, h3⟩ | ⟨_, _, hrest⟩
+  · exact ⟨_, _, h3⟩
+  · exact ⟨_, _, h3⟩
+  · have := (encRest_frame hrest).2.1; simp at this
+
+/-- pure arithmetic behind `encodeData_pos` -/
+theorem pos_arith {lf lp ip n lf1 lp1 lf' lp' : Nat}
+    (h1 : lf ≤ lp) (h2 : lp ≤ ip) (hn : n ≤ ip - lp)
+    (p1 : lf1 = lf + n) (p2 : lp1 = lp + n)
+    (q1 : lf' = lf1 ∨ lf' = ip) (q2 : lp' = lp1 ∨ lp' = ip)
+    (q3 : lf' = ip → lp' = ip ∨ ip = lf1) :
+    lf' ≤ lp' ∧ lp ≤ lp' ∧ lp' ≤ ip ∧ lf ≤ lf' := by
+  subst p1 p2
+  rcases q1 with q1 | q1 <;> rcases q2 with q2 | q2
+  · subst q1 q2; omega
+  · subst q1 q2; omega
+  · have := q3 q1; subst q2; omega
+  · subst q1 q2; omega
+
+theorem encRest_pos {m : St × Writer × Nat} {ans : Ans} {w0 : Writer} {bytes : Nat} {il ff res : Bool} {s' : St}
+    (h : encRest m ans w0 bytes il ff = .ok (s', res)) :
+    ∃ n lf1 lp1, (n = 0 ∨ n = min 2 bytes) ∧ lf1 = m.1.lastFlushPos + n ∧ lp1 = m.1.lastProcessedPos + n ∧
+      (s'.lastFlushPos = lf1 ∨ s'.lastFlushPos = m.1.inputPos) ∧
+      (s'.lastProcessedPos = lp1 ∨ s'.lastProcessedPos = m.1.inputPos) ∧
+      (s'.lastFlushPos = m.1.inputPos → s'.lastProcessedPos = m.1.inputPos ∨ m.1.inputPos = lf1) := by
+  unfold encRest at h
+  split at h
+  · simp at h
+  · simp at h
+  · rename_i s2 w hdr hpre
+    have hip : s2.inputPos = m.1.inputPos := by
+      have := (encPrelude_frame hpre).1
+      rw [St.frame_eq_iff] at this
+      exact this.2.1
+    obtain ⟨q1, q2, q3⟩ := encPayload_pos h
+    rw [hip] at q1 q2 q3
+    rcases encPrelude_pos hpre with ⟨p1, p2⟩ | ⟨p1, p2⟩
+    · refine ⟨0, s2.lastFlushPos, s2.lastProcessedPos, Or.inl rfl, by omega, by omega, q1, q2, q3⟩
+    · refine ⟨min 2 bytes, s2.lastFlushPos, s2.lastProcessedPos, Or.inr rfl, p1, p2, q1, q2, q3⟩
 
 /-- positions after a successful `encode_data`, given they were ordered before -/
 theorem encodeData_pos {o : Oracle} {s s' : St} {site : Nat} {il ff : Bool} {req : Req}
@@ -83,32 +81,26 @@ theorem encodeData_pos {o : Oracle} {s s' : St} {site : Nat} {il ff : Bool} {req
     (h1 : s.lastFlushPos ≤ s.lastProcessedPos) (h2 : s.lastProcessedPos ≤ s.inputPos) (h3 : s.inputPos < two64) :
     s'.lastFlushPos ≤ s'.lastProcessedPos ∧ s.lastProcessedPos ≤ s'.lastProcessedPos
     ∧ s'.lastProcessedPos ≤ s.inputPos ∧ s.lastFlushPos ≤ s'.lastFlushPos := by
-  rcases encodeData_ok_cases h with ⟨_, hh, _⟩ | ⟨_, _, hh, _⟩ | ⟨_, _, s2, w, hdr, hpre, hpay⟩
+  obtain ⟨_, hc⟩ := encodeData_ok_cases h
+  rcases hc with ⟨_, hh, _⟩ | ⟨_, _, hh, _⟩ | ⟨_, _, hrest⟩
   · simp at hh
   · simp at hh
   · have hu : s.unprocessed = s.inputPos - s.lastProcessedPos := wsub64_eq h2 h3
-    have hb : s.unprocessed % two32 ≤ s.inputPos - s.lastProcessedPos := by
-      rw [← hu]; exact Nat.mod_le _ _
-    have m := encMagic_frame (growStorage (encStart s il) (wantStorage s)) (bitsOf s.lastBytesBits s.lastBytes)
-    have g := growStorage_frame (encStart s il) (wantStorage s)
-    have mlf : (encMagic (growStorage (encStart s il) (wantStorage s)) (bitsOf s.lastBytesBits s.lastBytes)).1.lastFlushPos = s.lastFlushPos := by
-      rw [m.2.1, g.2.1]; simp [encStart]
-    have mlp : (encMagic (growStorage (encStart s il) (wantStorage s)) (bitsOf s.lastBytesBits s.lastBytes)).1.lastProcessedPos = s.lastProcessedPos := by
-      rw [m.2.2.1, g.2.2.1]; simp [encStart]
-    have mip : s2.inputPos = s.inputPos := by
-      have := (encPrelude_frame hpre).1
-      rw [St.frame_eq_iff] at this
-      rw [this.2.1]
-      have := m.1; rw [St.frame_eq_iff] at this; rw [this.2.1]
-      have := g.1; rw [St.frame_eq_iff] at this; rw [this.2.1]
-      simp [encStart]
-    have pp := encPrelude_pos hpre
-    rw [mlf, mlp] at pp
-    have qq := encPayload_pos hpay
-    rw [mip] at qq
-    obtain ⟨q1, q2, q3⟩ := qq
-    have hmin : min 2 (s.unprocessed % two32) ≤ s.inputPos - s.lastProcessedPos := by omega
-    rcases pp with ⟨p1, p2⟩ | ⟨p1, p2⟩ <;> rcases q1 with q1 | q1 <;> rcases q2 with q2 | q2 <;>
-      (first | (refine ⟨?_, ?_, ?_, ?_⟩ <;> omega) | (have := q3 q1; refine ⟨?_, ?_, ?_, ?_⟩ <;> omega))
+    obtain ⟨m1, m2, m3, _⟩ := encMagic_frame (encEntry s il) s.carry
+    obtain ⟨e1, e2, e3, _⟩ := encEntry_fields s il
+    have mlf : (encMagic (encEntry s il) s.carry).1.lastFlushPos = s.lastFlushPos := m2.trans e2
+    have mlp : (encMagic (encEntry s il) s.carry).1.lastProcessedPos = s.lastProcessedPos := m3.trans e3
+    have mip : (encMagic (encEntry s il) s.carry).1.inputPos = s.inputPos := by
+      have a := m1; rw [St.frame_eq_iff] at a
+      have b := e1; rw [St.frame_eq_iff] at b
+      exact a.2.1.trans b.2.1
+    obtain ⟨n, lf1, lp1, hn, p1, p2, q1, q2, q3⟩ := encRest_pos hrest
+    rw [mlf] at p1; rw [mlp] at p2; rw [mip] at q1 q2 q3
+    have hb : s.unprocessed % two32 ≤ s.unprocessed := Nat.mod_le _ _
+    have hn' : n ≤ s.inputPos - s.lastProcessedPos := by
+      rcases hn with hn | hn
+      · rw [hn]; exact Nat.zero_le _
+      · rw [hn, ← hu]; exact Nat.le_trans (Nat.min_le_right _ _) hb
+    exact pos_arith h1 h2 hn' p1 p2 q1 q2 q3
 
 end BV.Stream
